@@ -412,6 +412,12 @@ impl Property for C12 {
             sc.set_knob("second_program_at", sc.cmds.len() as i64);
             sc.cmds.extend(extra);
         }
+        if rng.chance(2) {
+            // one line that writes a lot: thousands of copies of one value to an output stream
+            let pos = rng.usize(0, sc.cmds.len());
+            sc.cmds.insert(pos, Cmd::new(5, rng.usize(4200, 5200), rng.usize(1, 2), RArea::Nil));
+            sc.cmds.insert(pos + 1, Cmd::new(5, 1, 3, RArea::Nil));
+        }
         let n = sc.cmds.len();
         let mut left = n;
         let second = sc.knob("second_program_at") as usize;
@@ -437,6 +443,12 @@ impl Property for C12 {
             sc.script.push(format!("#{}", k));
             left -= k;
             pos += k;
+        }
+        if rng.chance(4) {
+            // the idiom the help text advertises, entered as a line of its own: it is a program, not a keyword
+            sc.cmds.push(Cmd::new(5, 1, 1, RArea::Nil));
+            sc.cmds.push(Cmd::new(1, 2, 3, RArea::Nil));
+            sc.script.push("#2".to_string());
         }
         if rng.chance(10) {
             sc.script.push("exit".to_string());
